@@ -53,7 +53,7 @@ MUTANTS = {
     "r06b": ("C05", [("revert", "462a8cb"), ("revert", "dbf66b8")]),
     "r11i": ("C11", [("revert", "fae71fe")]),
     "r11h": ("C11", [("revert", "fdd60f1")]), "r11g": ("C11", [("revert", "ae73461")]), "r11s": ("C11", [("revert", "25fbf79")]),
-    "r16n": ("C16", [("revert", "8354e8d")]), "r10c": ("C10", [("revert", "4b277b8")]), "r11d": ("C11", [("revert", "90f8c8c")]), "r16s": ("C16", [("revert", "280bec6"), ("revert", "7054408")]), "r11m": ("C11", [("revert", "6e594b4")]), "r14p": ("C14", [("revert", "83951d8")]), "r11p": ("C11", [("revert", "40c9e7d")]), "r11v": ("C11", [("revert", "05e4a30")]),
+    "r16n": ("C16", [("revert", "8354e8d")]), "r10c": ("C10", [("revert", "4b277b8")]), "r11d": ("C11", [("revert", "90f8c8c")]), "r16s": ("C16", [("revert", "280bec6"), ("revert", "7054408")]), "r11m": ("C11", [("revert", "6e594b4")]), "r14p": ("C14", [("revert", "83951d8")]), "r11p": ("C11", [("revert", "40c9e7d")]), "r11v": ("C11", [("revert", "05e4a30")]), "r10z": ("C10", [("revert", "7ee6ae2")]),
     "r10h": ("C10", [("revert", "b14eb33")]), "r10e": ("C10", [("revert", "36ebb5d")]), "r18a": ("C18", [("revert", "56c0e04")]), "r17s": ("C17", [("revert", "97705e1")]),
     "r10s": ("C10", [("revert", "d3bd293")]),
     "r02e": ("C02", [("revert", "0ae5b82")]), "r05e": ("C05", [("revert", "0ae5b82")]),
